@@ -361,14 +361,20 @@ def dscSteps : Nat → Nat → Nat → Nat × Nat
   | 0, tn, s => (tn, s)
   | fuel + 1, tn, s => if aboveThreshold tn FAC_DSC_THRESHOLD then dscSteps fuel (tn / 2) (s + 1) else (tn, s)
 
-/-- oddfac_1.c:394-426: `do { s--; mswing (n >> s); x = (s == flag ? x : x^2) * mswing } while (s != 0)`;
+/-- one pass of oddfac_1.c:394-426 (after `s--`): `x = (s == flag ? x : x^2) * mswing (n >> s)`;
     `skip` is the value of s at which the square is skipped (flag-1, none for flag = 0) -/
-def dscLoop (n : Nat) (skip : Option Nat) : Nat → Nat → Nat
+def dscStep (n : Nat) (skip : Option Nat) (s x : Nat) : Nat :=
+  let sw := mpz_2multiswing_1 (n >>> s)
+  let sq := if skip = some s then x else x * x
+  sq * sw
+
+/-- `do { s--; x = f s x; } while (s != 0)` -/
+def iterDown (f : Nat → Nat → Nat) : Nat → Nat → Nat
   | 0, x => x
-  | s + 1, x =>
-    let sw := mpz_2multiswing_1 (n >>> s)
-    let sq := if skip = some s then x else x * x
-    dscLoop n skip s (sq * sw)
+  | s + 1, x => iterDown f s (f s x)
+
+/-- oddfac_1.c:394-426: `do { s--; ... } while (s != 0)` -/
+def dscLoop (n : Nat) (skip : Option Nat) (s x : Nat) : Nat := iterDown (dscStep n skip) s x
 
 /-- mpz_oddfac_1 (mpz/oddfac_1.c:297-436): odd part of n!; with flag = 1 the last square is skipped -/
 def mpz_oddfac_1 (n flag : Nat) : Nat :=
